@@ -103,12 +103,12 @@ var otherRules = []string{"to=1~3", "ge=1", "le=3", "oto=1~3", "gt=1", "lt=3", "
 const reqText = "it is required"
 
 type obs struct {
-	pan   bool
-	msg   string
-	site  string
+	pan    bool
+	msg    string
+	site   string
 	nilRes bool
-	err   string
-	cls   []errparse.Clause
+	err    string
+	cls    []errparse.Clause
 }
 
 func observe(f func() error) obs {
